@@ -15,7 +15,7 @@ from vlib import Report, tlc, tlc_ok, dlv, write_ndjson, read_ndjson, log
 PID = "C20"
 CHUNK = 4000
 CASE_KEYS = ("id", "fam", "files", "top", "rules", "inp")
-FILE_FORMS = ("file", "dotfile", "updownfile")
+FILE_FORMS = ("file", "dotfile", "updownfile", "dslashfile")
 
 
 def apply_input_form(c):
@@ -129,8 +129,8 @@ def run(tier):
     nrand = 1500 if tier == "quick" else 15000
     rc = random_cases(pool, trees, nrand, rng)
     for k, c in enumerate(rc):
-        c["inp"] = ("dir", "dotdir", "dir", "file", "dotfile", "updownfile")[k % 6]
-        c["fi"] = 1 + (k // 6) % len(c["files"])
+        c["inp"] = ("dir", "dotdir", "dir", "file", "dotfile", "updownfile", "dslashfile")[k % 7]
+        c["fi"] = 1 + (k // 7) % len(c["files"])
     cases = [apply_input_form(c) for c in cases]
     rc = [apply_input_form(dict(c)) for c in rc]
     stats = {k: 0 for k in ("observations", "files", "rule_decisions", "excluded_by_top_level_filter",
